@@ -25,7 +25,7 @@ inline std::string c17_keyify(const std::string& s, size_t maxlen = 72)
     std::string o;
     bool dash = false;
     for (char ch : s) {
-        bool keep = (ch >= 'A' && ch <= 'Z') || (ch >= 'a' && ch <= 'z') || (ch >= '0' && ch <= '9') || ch == '_' || ch == '.' || ch == ':' || ch == '=';
+        bool keep = (ch >= 'A' && ch <= 'Z') || (ch >= 'a' && ch <= 'z') || (ch >= '0' && ch <= '9') || ch == '_' || ch == '.' || ch == ':' || ch == '=' || ch == '<' || ch == '>';
         if (keep) {
             o += ch;
             dash = false;
